@@ -1,6 +1,7 @@
 import RedactVerif.Props.L2
 import RedactVerif.Props.FactsClassify
 import RedactVerif.Props.FactsSkelPrinter
+import RedactVerif.Proofs.Contain
 /-
 C11 — printing never fails: all inputs accepted, user-method panics contained.
 
@@ -102,5 +103,54 @@ theorem nested_panic_buffer_ok (env : Env) (he : EnvOk env) (n : Nat) (p : PP) (
     Inv (b.setMode p.buf.mode) ∧ (b.setMode p.buf.mode).mode = p.buf.mode ∧ ValOk pl := by
   have hd := ((spec_all env he n).doPrint { buf := p.buf, override := p.override } args.toList hp (listOk_of_valsOk _ ha)).2 b pl h
   exact ⟨inv_setMode _ _ hd.1, setMode_mode _ _, hd.2⟩
+
+/-! ### Containment, globally (`Proofs/Contain.lean`) -/
+theorem not_panic_of_nb {r : Res} (h : NB r) : ∀ b pl, r ≠ .panic b pl := by
+  intro b pl he
+  cases h <;> cases he
+
+/-- **User-method panics are contained, globally.** With an error hook that does not panic: if every
+value a user method panics with (at any depth: inside containers, wrappers, nested `Print/Printf`
+calls of other methods) can itself be printed without a panic — its own methods do not panic —
+then no panic leaves `Sprint`: every panic is caught and reported in place. Contrapositive of the
+property's "only a panic raised while printing that payload propagates". -/
+theorem sprint_contains_panics (env : Env) (hf : EnvPF env) (args : List Val) (hv : ListPB args) :
+    ∀ b pl, sprint env args ≠ .panic b pl :=
+  not_panic_of_nb ((bspec_all env hf defaultFuel).doPrint newPP args rfl hv)
+
+theorem sprintf_contains_panics (env : Env) (hf : EnvPF env) (f : List Byte) (args : List Val) (hv : ListPB args) :
+    ∀ b pl, sprintf env f args ≠ .panic b pl :=
+  not_panic_of_nb ((bspec_all env hf defaultFuel).doPrintf newPP f args rfl hv)
+
+theorem helperForErrorf_contains_panics (env : Env) (hf : EnvPF env) (f : List Byte) (args : List Val) (hv : ListPB args) :
+    ∀ b pl, helperForErrorf env f args ≠ .panic b pl :=
+  not_panic_of_nb ((bspec_all env hf defaultFuel).doPrintf _ f args rfl hv)
+
+/-- Every function of the printer, entered outside a panic report, returns outside one. -/
+theorem printArg_contains_panics (env : Env) (hf : EnvPF env) (n : Nat) (p : PP) (hp : p.panicking = false) (v : Val)
+    (hv : ValPB v) (verb : Nat) :
+    (∀ b pl, printArg env n p v verb ≠ .panic b pl) ∧ ∀ q, printArg env n p v verb = .ok q → q.panicking = false := by
+  have h := (bspec_all env hf n).printArg p v verb hp hv
+  refine ⟨not_panic_of_nb h, fun q hq => ?_⟩
+  rw [hq] at h
+  cases h with
+  | ok hk => exact hk
+
+/-- Values whose methods never panic: no panic leaves any function, whatever the printer's state. -/
+theorem panic_free_values_never_panic (env : Env) (hf : EnvPF env) (n : Nat) (p : PP) (v : Val) (hv : ValPF v) (verb : Nat) :
+    ∀ b pl, printArg env n p v verb ≠ .panic b pl := by
+  intro b pl he
+  have h := (aspec_all env hf n).printArg p v verb hv
+  rw [he] at h
+  cases h
+
+/-! Premises satisfiable: a Stringer that panics with a string, inside a slice. -/
+example : ListPB [.slice "[]interface {}".toUTF8.toList false true
+    (.cons (.meth { stringer := true } "main.S".toUTF8.toList false false false 0
+      (.safeString [0x61] (.panic (.leaf 1 .str "string".toUTF8.toList none false false))) .nil) .nil)] := by
+  intro v hv
+  simp only [List.mem_singleton] at hv
+  subst hv
+  simp [ValPB, ValsPB, ScriptPB, ValPF]
 
 end Redact
